@@ -1206,7 +1206,11 @@ def _take_completion(ctx, v, b, e):
                 (ct, R, c) = g
                 step = 1 if ct[3] in ("fetch_add", "fetch_update") else -1
                 is_param = R is not None and R[0] == "param" and not v.P.bodies[R[1]].is_handler()
-                if not (is_param and c + step == 0):
+                if ct[3] == "fetch_update" and is_countdown_update(v, p, ct[2]):
+                    # a counter of remaining slots: the last slot is the one whose update left 0 behind (pre == 1)
+                    if not (R is None and c == 1):
+                        probs.append("completion guard is not post(remaining) == 0")
+                elif not (is_param and c + step == 0):
                     probs.append("completion guard is not post(counter) == max")
             # (2) end == false
             fl = flag_guard(p, idx, False)
@@ -2088,6 +2092,45 @@ def claim_closure_ok(v, eff):
     return okc
 
 
+def countdown_closure_ok(v, eff):
+    """The closure of a fetch_update on a counter of remaining slots: `r >= 1 => Some(r - 1), else None` (`r.checked_sub(1)`)."""
+    if not eff.closure:
+        return False
+    rets = closure_returns(v, eff.closure)
+    if len(rets) != 2:
+        return False
+    seen = set()
+    for gs, r in rets:
+        cm = [g for g in gs if g[0] == "cmp"]
+        if len(cm) != 1:
+            return False
+        g = cm[0]
+        if not (g[1] == ("param", eff.closure, 2) and g[2] is None and g[4] == 1):
+            return False
+        if g[3] == ">=":
+            if not (r is not None and r[0] == "agg" and r[2] == "Option::Some" and lin(r[3][0]) == (g[1], -1)):
+                return False
+            seen.add("some")
+        elif g[3] == "<":
+            if not (r is not None and r[0] == "agg" and r[2] == "Option::None"):
+                return False
+            seen.add("none")
+        else:
+            return False
+    return seen == {"some", "none"}
+
+
+def take_counts_down(v, h):
+    return any(e.kind == "atomic" and e.op == "fetch_update" and countdown_closure_ok(v, e) for e in v.all_effects(h))
+
+
+def is_countdown_update(v, p, site):
+    for _, e in ev_effects(p):
+        if e.kind == "atomic" and e.site == site and e.op == "fetch_update":
+            return countdown_closure_ok(v, e)
+    return False
+
+
 def cas_claim_path(v, p, arm_uses_cas=False):
     """A hand-written claim loop on one path: `cur = c.load(); loop { if cur >= max { refuse }; match c.compare_exchange(cur, cur + 1)
     { Ok(_) => admitted with cur + 1, Err(actual) => cur = actual } }`.  Returns None if neither the path nor its arm has a
@@ -2175,6 +2218,7 @@ def lemma_take_admission(ctx, v, h):
     n = 0
     cellk = None
     arm_uses_cas = any(e.kind == "atomic" and e.op in ("compare_exchange", "compare_exchange_weak") and "Data" in site_arms(v, h, e) for e in v.all_effects(h))
+    countdown = False
     for p in live(v, returning(v.arm(h, "Data"))):
         ds = [s for s in send_sig(v, h, "Data", p) if s[0] == "SINK" and s[1] == "Data"]
         if len(ds) > 1:
@@ -2218,6 +2262,9 @@ def lemma_take_admission(ctx, v, h):
                                 okc = False
                         else:
                             okc = False
+                    if not okc and countdown_closure_ok(v, eff[0]):
+                        okc = True
+                        countdown = True
                     if not okc:
                         probs.append("the update closure is not `t < max => Some(t+1), else None`")
                 else:
@@ -2240,7 +2287,13 @@ def lemma_take_admission(ctx, v, h):
             probs.append("datum forwarded although not admitted")
         if ds and ds[0][2] != "in":
             probs.append("forwarded datum is not the incoming one")
-    if cellk and cell_init(v, cellk[0]) != 0:
+    if cellk and countdown:
+        # the counter counts the slots that are left: it starts at max (the factory parameter itself)
+        c0 = v.op.cells.get(cellk[0])
+        a0 = c0.alloc if c0 else None
+        if not (a0 and a0[0] == "call" and a0[3] and is_factory_param(v, a0[3][0])):
+            probs.append("the count-down counter does not start at max")
+    elif cellk and cell_init(v, cellk[0]) != 0:
         probs.append("counter does not start at 0")
     ctx.ob("GRD-cmp", v.key(h, "Data", "GRD-cmp", "admission"), not probs and n,
            "a datum is forwarded iff the counter's own atomic update admitted it (pre < max), exactly once, unchanged" if not probs else "; ".join(sorted(set(probs))[:3]), v.loc(h))
@@ -2338,6 +2391,19 @@ def transfer_lemmas(ctx, v):
         for p in returning(v.arm(d, "Pull")):
             sig = [(s[0], s[1]) for s in send_sig(v, d, "Pull", p)]
             dec = [a for (_, a, _) in guards_before(p, len(p.events)) if a[0] == "cmp" and counter_term(a[1]) and counter_term(a[1])[0] == "cur" and is_factory_param(v, a[2])]
+            down = [a for (_, a, _) in guards_before(p, len(p.events)) if a[0] == "cmp" and counter_term(a[1]) and counter_term(a[1])[0] == "cur" and a[2] is None and a[4] == 1
+                    and a[3] in ("<", ">=")]
+            if not dec and len(down) == 1 and ck and counter_term(down[0][1])[1] == ck and take_counts_down(v, h):
+                # a counter of remaining slots: relay iff remaining >= 1
+                if down[0][3] == ">=":
+                    kinds.add("relay")
+                    if sig != [("UPTB", "Pull")] and not (not sig and tb_none_decided(v, p)):
+                        probs.append("slots left: sends %s" % sig)
+                else:
+                    kinds.add("drop")
+                    if sig:
+                        probs.append("no slot left: sends %s" % sig)
+                continue
             if len(dec) != 1 or (ck and counter_term(dec[0][1])[1] != ck):
                 probs.append("pull relay not decided by taken vs max")
                 continue
@@ -3919,6 +3985,8 @@ def discharge_panic(v, b, var, p, i, e, hint, tbcells):
                 return ("K-arith", True, "post-increment of an event counter: bounded by the number of deliveries (2^64 residue)")
             if base[0] == "rmw" and base[2] == "fetch_update" and inner[1].startswith("Add"):
                 return ("K-arith", True, "previous value admitted by the update, hence < max")
+            if base[0] == "rmw" and base[2] == "fetch_update" and inner[1].startswith("Sub") and k[0] == "const" and k[3] == 1 and is_countdown_update(v, p, base[4]):
+                return ("K-arith", True, "previous value admitted by the count-down update, hence >= 1")
             if base[0] == "rmw" and base[2] == "fetch_sub" and inner[1].startswith("Sub"):
                 ck = cell_key(base[1])
                 init = cell_init(v, ck[0])
